@@ -108,6 +108,13 @@ class ModelClient:
                                   encoding='utf-8', bufsize=1 << 20)
 
     def ask(self, lines):
+        """send request lines, read one reply per line; chunked so that neither pipe buffer can fill up"""
+        out = []
+        for i in range(0, len(lines), 64):
+            out.extend(self._ask(lines[i:i + 64]))
+        return out
+
+    def _ask(self, lines):
         if not lines:
             return []
         for ln in lines:
@@ -168,11 +175,27 @@ class LaneBase:
         return []
 
 
+def theorems_of_audit(audit):
+    """the property theorems of a lane = the `#print axioms` lines of its audit file"""
+    path = os.path.join(LEAN_DIR, audit)
+    if not os.path.exists(path):
+        return []
+    out = []
+    for ln in strip_comments(open(path, encoding='utf-8').read()).split('\n'):
+        ln = ln.strip()
+        if ln.startswith('#print axioms '):
+            out.append(ln.split()[2])
+    return out
+
+
 def load_lane(prop: str) -> LaneBase:
     setup_repo_path()
     sys.path.insert(0, VERIF)
     mod = importlib.import_module(f'harness.lanes.{prop.lower()}')
-    return mod.Lane()
+    lane = mod.Lane()
+    if lane.THEOREMS == 'auto':
+        lane.THEOREMS = theorems_of_audit(lane.AUDIT)
+    return lane
 
 
 # ----------------------------------------------------------------------------------------------
@@ -296,15 +319,16 @@ def audit(lane):
     cur = None
     # output format: "'name' depends on axioms: [a, b]" or "'name' does not depend on any axioms"
     text = out.replace('\n ', ' ')
+    import re
     for ln in text.split('\n'):
         ln = ln.strip()
-        if ln.startswith("'") and 'depends on axioms' in ln:
-            name = ln.split("'")[1]
-            axs = ln.split('[', 1)[1].rsplit(']', 1)[0]
-            axs = {a.strip() for a in axs.replace('\n', ' ').split(',') if a.strip()}
-            seen[name] = axs
-        elif ln.startswith("'") and 'does not depend on any axioms' in ln:
-            seen[ln.split("'")[1]] = set()
+        m = re.match(r"^'(.+)' depends on axioms: \[(.*)\]$", ln)
+        if m:
+            seen[m.group(1)] = {a.strip() for a in m.group(2).split(',') if a.strip()}
+            continue
+        m = re.match(r"^'(.+)' does not depend on any axioms$", ln)
+        if m:
+            seen[m.group(1)] = set()
     if rc != 0:
         bad.append('audit file failed to elaborate: ' + out[-800:])
     for t in lane.THEOREMS:
